@@ -7,6 +7,7 @@ mod c05;
 mod c06;
 mod c09;
 mod c10;
+mod c11;
 mod common;
 mod storeops;
 mod storeprops;
@@ -30,6 +31,7 @@ fn main() -> anyhow::Result<()> {
         "C06" => c06::run(seed, n, &out, thorough),
         "C09" => c09::run(seed, n, &out, thorough),
         "C10" => c10::run(seed, n, &out, thorough),
+        "C11" => c11::run(seed, n, &out, thorough),
         "C12" | "C14" => actorops::run(prop, seed, n, &out, thorough),
         "C08" => c01::run(seed, n, &out, thorough, "C08", "Check.C08"),
         "C03" => c03::run(seed, n, &out, thorough),
